@@ -19,6 +19,18 @@ CLAIMED = {
              "generated convex sets in 3 vertex orders; qhull certified per instance (closed chain, supporting planes).",
         design="§4 C01", technique="Coq proof (closed-chain cancellation, field identities, Paramcoq transfer) + model/implementation correspondence on exact rationals",
         note="qhull is a certified oracle; divergence theorem (cone sums = Lebesgue integrals) taken as definition; face areas use one float sqrt per triangle."),
+    "C04": dict(
+        text="Theorems (all vertex cycles, any length): the code's projection-based signed-area sum is the p-th component of the vector area (cyclic "
+             "re-indexing), hence for a planar polygon equals (N.A)/(N.N) whichever axis is projected out; reversal negates and cyclic shifts preserve it; "
+             "the (repaired) centroid and planar moments equal the exact orientation-corrected shoelace values; the shoelace edge terms are the Coquelicot "
+             "integrals of 1, x, x^2, y^2, xy over the signed triangle (0,v_i,v_i+1) and the area is apex-independent; the as-found abs variants are proved "
+             "right only for counter-clockwise input and refuted by computed witnesses; Paramcoq transfer Q-model -> R-model. Tie: hand-written frame-free "
+             "executable model run on exact rationals against Polygon/ConvexPolygon for star-shaped, comb and spiral polygons, both orientations, reflex first "
+             "corner, explicit/default/opposing normals, exact integer-matrix placement in 3-space, lattice polygons.",
+        design="§4 C04", technique="Coq proof (cyclic-sum re-indexing, field identities, Coquelicot triangle integrals, refutation witnesses, Paramcoq transfer) + model/implementation correspondence on exact rationals",
+        note="the signed fan decomposition of a simple polygon (Green) is taken as the definition of the polygon integrals; rowan's kabsch rotation is an oracle "
+             "(the model is frame-free); polar moment / inertia tensor assembly (rotate + parallel axis) is modelled and compared, not separately proved; "
+             "perimeter uses one float sqrt per edge; known finding polygon-collinear-first-corner is shared with C15."),
     "C02": dict(
         text="Theorems (every closed oriented chain): Eberly's centroid accumulators are 6V and 24 x first moment, so the centroid is exact; "
              "Kallay's /20 rule with signed volumes is the exact second moment and, shifted by the parallel-axis theorem about the centroid, the exact "
